@@ -10,7 +10,7 @@ git -C $clone apply $patch || { echo "PATCH DOES NOT APPLY"; exit 2; }
 cd /verif
 ev=evidence/$prop.json; [ -f $ev ] && cp $ev /tmp/seed_ev_$prop.json
 gen=$(mktemp -d /tmp/seedgen.XXXX); cp lean/AskarModel/Generated/*.lean $gen/
-unshare -m bash -c "mount --bind $clone /repo && cd /verif && ./check $prop --tier $tier" > /tmp/seed_run_$prop.log 2>&1; rc=$?
+unshare -m bash -c "mount --bind $clone /repo && cd /verif && VERIF_NO_EVIDENCE=1 ./check $prop --tier $tier" > /tmp/seed_run_$prop.log 2>&1; rc=$?
 cp $gen/*.lean lean/AskarModel/Generated/; rm -rf $gen
 [ -f /tmp/seed_ev_$prop.json ] && mv /tmp/seed_ev_$prop.json $ev
 git -C $clone checkout -q -- .
